@@ -255,7 +255,7 @@ func checkSample(c HistCase, what, viewClass string, res [][]uint64, qs []uint64
 			}
 			if only {
 				key := "C17:gauss:bignum:negative-sample-exceeds-bound"
-				msg := fmt.Sprintf("coefficient %d = %v is below -bound = -%v (sigma=%g);%s", first, x[first], B, d.Sigma, limbReport(res, qs, first))
+				msg := fmt.Sprintf("coefficient %d = %v (or that value minus the modulus) exceeds the bound %v in magnitude (sigma=%g);%s", first, x[first], B, d.Sigma, limbReport(res, qs, first))
 				if rec.Known(key, msg) {
 					rec.Class("known=" + key)
 					return true, nil
